@@ -13,7 +13,7 @@ TARGETS = ["theories/Properties/C15.v"]
 NPROC = 16
 TRUSTED = [
     "Coq 8.16.1 kernel (coqc; vm_compute for the table side conditions and the Examples); no axioms (Print Assumptions: closed under "
-    "the global context for all 8 theorems)",
+    "the global context for all 7 theorems)",
     "tools/translate_http.py (ours): reads teos-common/src/errors.rs (every code), teos-common/src/net/http.rs (Endpoint names), "
     "teos/src/api/http.rs (the four *_BODY_LEN caps; every route of `router`: method filter, path, body filters, handler, the order of "
     "the .or chain and the final .recover(handle_rejection); the ApiError constructors and their codes; every statement of the four "
@@ -101,8 +101,8 @@ def run(ctx):
     cov["checker_cmd"] = "cd /verif/coq && make theories/Properties/C15.vo   (coqc 8.16.1, full .vo build)"
     cov["trusted_base"] = TRUSTED
     ctx.assumptions += [
-        "C15_error_body_documented needs the content-type to be absent or application/json: without it the statement is refuted "
-        "(C15_error_body_documented_refuted: 415 with a text/plain body) - reported by the check as a known finding",
+        "C15_error_body_documented is the full statement (any content-type, any body); before the fix 8a3c402 it needed the content-type to be absent or "
+        "application/json (warp's 415 text/plain was handed back by handle_rejection: HttpProofs.error_body_needs_media_type_row)",
         "'acceptable size' is read as: a content-length header is present and within the endpoint's cap (a chunked request has no "
         "content-length: warp answers 411 text/plain; that is outside the hypothesis, the monitor only demands a 4xx there)",
         "C15_error_body_documented and C15_non200_unchanged assume the internal handler does not abort (C11) and returns one of the codes "
@@ -182,11 +182,6 @@ def run(ctx):
             case = f.split(" case=", 1)[1].strip() if " case=" in f else ""
             ctx.add_violation("C15 monitor false on the real HTTP API: " + f.split(" case=")[0],
                               {"kind": "http", "case": case, "detail": f.split(" case=")[0]}, key)
-        if mon:
-            known = [f for f in mon if vlib.match_known(ctx.known, {"key": classify(f)}) is not None]
-            if known:
-                ctx.notes.append(f"{len(known)} requests with a content-type other than application/json to an existing endpoint were answered 415 "
-                                 "with warp's text/plain body instead of a JSON error object (known finding)")
     return ctx.finish("proof")
 
 
